@@ -150,7 +150,7 @@ Example C11_example_X3 :
 Proof. vm_compute. repeat split; reflexivity. Qed.
 
 (* WHIP: an ingest session is created only with credentials that were
-   admitted with `present` (every refusal leaves no session), and a later
+   let in with `present` (every refusal leaves no session), and a later
    request on a session created with a bearer token is served only if it
    carries that token. *)
 Theorem C11_whip_create : forall st g tok adm sdp id st' s,
@@ -170,7 +170,7 @@ Print Assumptions C11_whip_resource.
 
 (* The full statement of the property for WHIP ("later requests must present
    the same bearer token") is FALSE of the code for sessions created without
-   a bearer token (user "whip" admitted with an empty password): they are
+   a bearer token (user "whip" let in with an empty password): they are
    served whatever token a request carries. *)
 Definition C11_whip_full_statement : Prop :=
   forall st g id bearer meth st' s sess,
